@@ -84,11 +84,37 @@ def check_exits(ctx, prog, fn, rule="c12.exit"):
     return sites
 
 
+def check_every_hour_counts(ctx, prog, f, rule="c12.weight"):
+    """"the factor is the mean over the hours of the July day": every pass through the loop over the July rows has to record its hour (the pushes of the
+    sunlit fraction, beam and diffuse values) - a `continue` under some condition on the row drops hours from the mean of some zones only"""
+    from ..loops import classify_loops, skipping_path
+    body = f.body
+    def has_push(i):
+        return any(body.blocks[b]["term"]["t"] == "call" and short_callee(callee_name(body.blocks[b]["term"]) or "") == "push" for b in i["blocks"])
+    # the hour loop: the innermost iterator loop that records (pushes) values - it runs over the July rows of the model's zone, inside the window loop
+    loops = sorted([i for i in classify_loops(prog, f) if i["kind"] == "iterator" and has_push(i)], key=lambda i: len(i["blocks"]))
+    if not loops:
+        raise AnalysisError("compute_fshobst: no loop that records per-hour values was found")
+    info = loops[0]
+    blocks, h = set(info["blocks"]), info["header"]
+    use = {b for b in blocks for t in [body.blocks[b]["term"]] if t["t"] == "call" and short_callee(callee_name(t) or "") == "push"}
+    starts = [t.get("to") for b in blocks for t in [body.blocks[b]["term"]] if t["t"] == "call" and short_callee(callee_name(t) or "") == "next" and t.get("to") in blocks]
+    if not use or not starts:
+        raise AnalysisError("compute_fshobst: the hour loop does not push its values in the loop body: not a shape this rule reads")
+    key = rule + "|every-hour"
+    if skipping_path(body, blocks, h, starts, use):
+        ctx.violation(rule, key, "a path through the loop over the July rows reaches the next row without recording the hour: the mean obstruction factor is taken over fewer "
+                      "hours (for the rows that meet the skipping condition only)", f.loc(info["line"]))
+    else:
+        ctx.ok(rule, key, "every row of the July day is recorded (no path through the hour loop skips the pushes)", f.loc(info["line"]))
+
+
 def run(ctx):
     prog = ctx.prog
     f = prog.method("types::model::Model", None, "compute_fshobst")
     root = Scope(prog, f)
     ups = updates(root)
+    check_every_hour_counts(ctx, prog, f)
     # D1
     acc = [u for u in ups if u["dest"] == "fshobst_sum" and u["op"] == "+="]
     ctx.require(len(acc) == 1, "compute_fshobst: `fshobst_sum += ..` not found")
